@@ -388,6 +388,13 @@ def run(ck):
     # "ceil(n/24) frames such that a receiver reassembles exactly the original": a fragment counts as sent only if the radio said so -
     # the timed re-send reports the radio's last result (R13.7, shared with C13)
     c13.standby_rule(ck, agg)
+    # "frames of one message only": after an aborted message the dead fragment is flushed by the next send() because MAX_RT is still latched -
+    # no setter the network layer calls in between may clear it (R03.8, shared with C03), and send() flushes on it (R02.4)
+    from . import c03, c08
+    from ..tables import contract as _ct
+    c03.run_setters(rd, agg, _ct.SETTERS)
+    c08.events_kept(rd, agg)
+    link.send_prologue(rd, agg)
     agg.flush()
     ck.floor("R11.1", "header/frame codec paths", n1, 8)
     ck.floor("R11.10", "frame constructor paths", n_fc, 2)
